@@ -440,6 +440,209 @@ def databytes_setup_sites(db, rep):
 
 
 
+from rules import libtab as _lt
+
+
+class NetSession(_lt.SAConc, _lt.Conc):
+    """a whole QMTP/QMQP session of the daemon's main() over a scripted byte stream: what reaches the queue interface,
+    what is written to the client, and how the process ends"""
+    def __init__(self, script):
+        _lt.Conc.__init__(self, 'main')
+        self.script = script
+        self.ends = []
+
+    def ev(self, E, e):
+        E.set('$ev', fs(_lt._one(E.get('$ev')) + (e,) if _lt._one(E.get('$ev')) else (e,)))
+
+    def events(self, E):
+        return list(_lt._one(E.get('$ev')) or ())
+
+    def _none(self, E, x, args):
+        return [Outcome(ret=TOP)]
+
+    def _zero(self, E, x, args):
+        return [Outcome(ret=fs(0))]
+
+    prim_sig_pipeignore = prim_sig_alarmcatch = prim_alarm = prim_received = _none
+    prim_chdir = prim_control_init = prim_rcpthosts_init = prim_env_get = prim_control_readint = prim_qmail_open = prim_substdio_flush = _zero
+
+    def prim_qmail_qp(self, E, x, args):
+        return [Outcome(ret=fs(77))]
+
+    def prim_now(self, E, x, args):
+        return [Outcome(ret=fs(1000))]
+
+    prim_time = prim_now
+
+    def prim_rcpthosts(self, E, x, args):
+        return [Outcome(ret=fs(1))]
+
+    def prim_qmail_put(self, E, x, args):
+        n = _lt._one(args[2])
+        self.ev(E, ('put', self.mem(E, _lt._one(args[1]), n) if isinstance(n, int) and 0 <= n < 4096 else None))
+        return [Outcome(ret=TOP)]
+
+    def prim_qmail_puts(self, E, x, args):
+        self.ev(E, ('put', self.cstring(E, _lt._one(args[1]))))
+        return [Outcome(ret=TOP)]
+
+    def prim_qmail_from(self, E, x, args):
+        self.ev(E, ('from', self.cstring(E, _lt._one(args[1]))))
+        return [Outcome(ret=TOP)]
+
+    def prim_qmail_to(self, E, x, args):
+        self.ev(E, ('to', self.cstring(E, _lt._one(args[1]))))
+        return [Outcome(ret=TOP)]
+
+    def prim_qmail_fail(self, E, x, args):
+        self.ev(E, ('fail',))
+        return [Outcome(ret=TOP)]
+
+    def prim_qmail_close(self, E, x, args):
+        self.ev(E, ('close',))
+        return [Outcome(ret=fs(('str', '')))]
+
+    def _stream(self, E, v):
+        v = _lt._one(v)
+        return v[1] if isinstance(v, tuple) and v[0] == '&' else None
+
+    def prim_substdio_get(self, E, x, args):
+        from qv.esp import ptr_add
+        if self._stream(E, args[0]) != 'G:ssin':
+            raise AnalysisBroken('%s: reads from %s' % (x.where, x.args[0].src()))
+        k = _lt._one(E.get('$k')) or 0
+        n = _lt._one(args[2])
+        p = _lt._one(args[1])
+        if not (isinstance(n, int) and n >= 1 and isinstance(p, tuple) and p[0] == '&'):
+            raise AnalysisBroken('%s: substdio_get(%s) with an undetermined target or count' % (x.where, x.src()))
+        if k >= len(self.script):
+            self.ends.append((self.events(E), ('eof',)))
+            return 'noreturn'
+        data = self.script[k:k + n]          # a read hands back what is there, at least one byte
+        sets = {'$k': fs(k + len(data))}
+        for i, b in enumerate(data):
+            q = ptr_add(p, i) or (p if i == 0 else None)
+            if q is None:
+                raise AnalysisBroken('%s: substdio_get into %r' % (x.where, p))
+            sets[q[1]] = fs(b - 256 if b >= 128 else b)
+        for q_, v_ in sets.items():
+            if not q_.startswith('$'):
+                self.on_assign(E, x, q_, v_)
+        return [Outcome(ret=fs(len(data)), sets=sets)]
+
+    prim_substdio_bget = prim_substdio_get
+
+    def prim_substdio_put(self, E, x, args):
+        n = _lt._one(args[2])
+        self.ev(E, ('out', self.mem(E, _lt._one(args[1]), n) if isinstance(n, int) and 0 <= n < 4096 else None))
+        return [Outcome(ret=fs(0))]
+
+    prim_substdio_bput = prim_substdio_putflush = prim_substdio_put
+
+    def prim_substdio_puts(self, E, x, args):
+        self.ev(E, ('out', self.cstring(E, _lt._one(args[1]))))
+        return [Outcome(ret=fs(0))]
+
+    prim_substdio_bputs = prim_substdio_putsflush = prim_substdio_puts
+
+    def prim__exit(self, E, x, args):
+        self.ends.append((self.events(E), ('exit', _lt._one(args[0]))))
+        return 'noreturn'
+
+    def on_assign(self, E, x, path, val):
+        import re as _re
+        m = _re.match(r'^G:(buf2?)\[(-?\d+)\]', path or '')
+        if m and not (0 <= int(m.group(2)) < {'buf': 1000, 'buf2': 100}[m.group(1)]):
+            self.ev(E, ('overflow', path))
+
+
+def netstring(b):
+    return str(len(b)).encode() + b':' + b + b','
+
+
+def run_session(db, rep, pname, unit, script):
+    prog = db.program(pname)
+    main = prog.fn('main', unit)
+    H = NetSession(script)
+    e = Engine(db, prog, H, max_states=400000)
+    st = {'G:databytes': fs(0), 'G:bytestooverflow': fs(0), 'G:bytesleft': fs(100), 'G:flagok': fs(1), 'G:failure.len': fs(0), 'G:failure.a': fs(0), 'G:failure.s': fs(0)}
+    e.run(main, st)
+    rep.count_states(e.states, e.transitions)
+    if len(H.ends) != 1:
+        raise AnalysisBroken('%s: %d ends for the session %r' % (pname, len(H.ends), script[:60]))
+    return H.ends[0]
+
+
+def session_sites(db, rep):
+    """both netstring daemons over well-formed sessions, sessions with a malformed length, and addresses at the size limit"""
+    out = {}
+    for pname, unit in (('qmail-qmtpd', 'qmail-qmtpd.c'), ('qmail-qmqpd', 'qmail-qmqpd.c')):
+        qmtp = pname == 'qmail-qmtpd'
+
+        def wire(msg, sender, rcpts, lens=None):
+            """lens: replacement texts for the length fields, by position (0 message, 1 sender, 2 recipient list (QMTP) / whole package (QMQP), 3.. recipients)"""
+            lens = lens or {}
+
+            def ns(b, k):
+                return lens.get(k, str(len(b)).encode()) + b':' + b + b','
+            body = (b'\n' + msg) if qmtp else msg
+            if qmtp:
+                rl = b''.join(ns(r, 3 + i) for i, r in enumerate(rcpts))
+                return ns(body, 0) + ns(sender, 1) + ns(rl, 2)
+            inner = ns(body, 0) + ns(sender, 1) + b''.join(ns(r, 3 + i) for i, r in enumerate(rcpts))
+            return ns(inner, 2)
+
+        def describe(evs):
+            return [(e[0], (e[1][:24] + b'..' if isinstance(e[1], bytes) and len(e[1]) > 26 else e[1]) if len(e) > 1 else '') for e in evs if e[0] != 'put'][:8]
+        bad = None
+        n = 0
+        # 1. a well-formed session is queued as it was sent and acknowledged
+        evs, end = run_session(db, rep, pname, unit, wire(b'hi', b'a@b', [b'c@d', b'e@f']))
+        n += 1
+        puts = b''.join(e[1] or b'?' for e in evs if e[0] == 'put')
+        seq = [e for e in evs if e[0] in ('from', 'to', 'fail', 'close', 'overflow')]
+        outb = b''.join(e[1] or b'?' for e in evs if e[0] == 'out')
+        if not (puts == b'hi' and seq == [('from', b'a@b'), ('to', b'c@d'), ('to', b'e@f'), ('close',)] and b'Kok 1000 qp 77' in outb):
+            bad = 'the session <hi, from a@b, to c@d e@f> gives message %r, %s, reply %r' % (puts, describe(evs), outb[:40])
+        # 2. a length field that is not a decimal number is malformed framing: never queued, never acknowledged
+        for pos in ((0, 1, 2, 3, 4)):
+            for junk in (b'/', b'x', b' ', b'+', b'\xb1', b';'):
+                for where in ('after', 'before'):
+                    if bad:
+                        break
+                    fields = [b'\nhi' if qmtp else b'hi', b'a@b', None, b'c@d', b'e@f']
+                    if pos == 2:
+                        true = len(netstring(b'c@d') + netstring(b'e@f')) if qmtp else len(netstring(fields[0]) + netstring(b'a@b') + netstring(b'c@d') + netstring(b'e@f'))
+                    else:
+                        true = len(fields[pos])
+                    txt = str(true).encode()
+                    txt = (txt + junk) if where == 'after' else (junk + txt)
+                    evs, end = run_session(db, rep, pname, unit, wire(b'hi', b'a@b', [b'c@d', b'e@f'], {pos: txt}))
+                    n += 1
+                    outb = b''.join(e[1] or b'?' for e in evs if e[0] == 'out')
+                    if any(e[0] == 'close' for e in evs) or b'K' in outb or end != ('exit', 100):
+                        bad = 'a session whose length field %d reads %r (the length is %d): %s, reply %r, then %s; documented: malformed framing ends the session (exit 100) and nothing is queued or acknowledged' % (pos, txt, true, describe(evs), outb[:30], end)
+        # 3. addresses: up to 999 bytes are passed on whole, 1000 and more and addresses with a NUL are refused; the buffer is never overrun
+        for which in ('sender', 'recipient'):
+            for ln, nul in ((999, False), (1000, False), (1001, False), (1300, False), (3, True), (0, False)):
+                if bad:
+                    break
+                addr = (b'a' * ln) if not nul else b'a\0b'
+                s_, r_ = (addr, [b'c@d']) if which == 'sender' else (b'a@b', [addr])
+                evs, end = run_session(db, rep, pname, unit, wire(b'hi', s_, r_))
+                n += 1
+                accepted = ((which == 'sender' and ('from', addr) in evs) or (which == 'recipient' and ('to', addr) in evs)) and ('fail',) not in evs
+                # a failed message is discarded by the queue whatever was handed over before; a refused recipient is not handed over at all
+                refused = ('fail',) in evs and not (which == 'recipient' and any(e[0] == 'to' for e in evs))
+                want_ok = ln <= 999 and not nul
+                over = [e for e in evs if e[0] == 'overflow']
+                if over or (accepted if not want_ok else not accepted) or (not want_ok and not refused):
+                    bad = 'a %s of %d bytes%s: %s%s; documented: %s' % (which, len(addr), ' containing a NUL' if nul else '', describe(evs), ' and a store outside the address buffer (%s)' % over[0][1] if over else '',
+                                                                    'passed on whole' if want_ok else 'refused (the queue is told to fail, or the recipient is answered with a refusal), never passed on cut short')
+        out['%s:sessions-with-malformed-lengths-or-oversized-addresses' % pname] = (bad is None, unit + ':main', bad or '%d scripted sessions' % n, [])
+    return out
+
+
 def run(ctx):
     db, rep = ctx.db, ctx.report
     prog = db.program('qmail-smtpd')
@@ -797,14 +1000,9 @@ def run(ctx):
         if any(branch_zero_test(cc, t, isgb_at(f)) == 'zero' for cc, t in mq.guards(f) or []):
             nf += 1
     r4.check(nf >= 2, 'qmqpd:bad-address->qmail_fail(2 sites)', 'qmail-qmqpd.c:main', 'qmail_fail under !getbuf(): %d site(s)' % nf)
-    gb = pq.fn('getbuf', 'qmail-qmqpd.c')
-    okgb = False
-    for x in gb.all_x():
-        if x.k == 'ret' and x.args and x.args[0].const == 0:
-            cv = consistent_values(gb, x, range(0, 2100))
-            if any(vals == set(range(1000, 2100)) for vals in cv.values()):
-                okgb = True
-    r4.check(okgb, 'qmqpd:getbuf-rejects-len>=1000', 'qmail-qmqpd.c:getbuf', 'no "return 0" taken exactly for len >= 1000')
+    sess = session_sites(db, rep)
+    for inst_, v_ in sorted(sess.items()):
+        r4.check(v_[0], inst_ + ':refusals', v_[1], v_[2], v_[3])
     r4.expect_min(12)
 
     # ---- the commit comes after the last byte of the request: nothing is read from the client between qmail_close() and its verdict
@@ -832,91 +1030,10 @@ def run(ctx):
     # ---- the queue program commits only a complete envelope (qmail-queue side of "exactly it was queued")
     from rules import C01
     # ---------------------------------------------------------------- 9. netstring lengths are decimal numbers
-    r9 = rep.rule('C07.9-netstring-lengths', 'R-SIBLING', 'every place that accumulates a netstring length (len = 10 * len + digit) is reached only for the bytes "0".."9": any other byte before the colon is malformed framing and ends the session')
-    from qv.lib import consistent_values as _cv
-    nsites = 0
-    for unit_, fname_ in (('qmail-qmtpd.c', 'getlen'), ('qmail-qmtpd.c', 'main'), ('qmail-qmqpd.c', 'getlen')):
-        fn_ = db.fn(unit_, fname_)
-        for x in fn_.all_x():
-            if not (x.k == 'bin' and x.op == '*' and 10 in (x.args[0].const, x.args[1].const)):
-                continue
-            # the byte being added: the other operand of the enclosing sum, a difference "byte - '0'"
-            digit = None
-            for y in fn_.all_x():
-                if y.k == 'bin' and y.op == '+' and any(a is not None and a.strip() is not None and a.strip().id == x.id for a in y.args):
-                    other = [a for a in y.args if a is not None and a.strip() is not None and a.strip().id != x.id]
-                    if other:
-                        d_ = other[0].strip()
-                        if d_.k == 'bin' and d_.op == '-' and d_.args[1].const == ord('0'):
-                            digit = d_.args[0].strip()
-            if digit is None:
-                raise AnalysisBroken('%s:%s: the digit added to 10*len was not found' % (unit_, fname_))
-            # which byte values reach the sum: every guard on the way that depends on the byte alone is evaluated for all 256 values,
-            # however it is spelt (comparisons, arithmetic on the byte, a helper predicate of the same file)
-            prog_ = db.program('qmail-qmtpd' if unit_ == 'qmail-qmtpd.c' else 'qmail-qmqpd')
-            eng_ = Engine(db, prog_, QHooks())
-            E_ = Env(eng_, fn_, {}, {}, None)
-            dpath = eng_.canon(E_, digit)
-            if dpath is None:
-                raise AnalysisBroken('%s:%s: the byte added to 10*len is not a plain object' % (unit_, fname_))
-
-            def helper_value(g_, u_):
-                rets = []
-
-                class HV(QHooks):
-                    def on_return(self, E, f, v):
-                        if f.name == g_.name:
-                            rets.append(v)
-                e2 = Engine(db, prog_, HV(), max_states=20000)
-                e2.run(g_, {'%s::%s' % (e2.frame_id(g_), g_.params[0]): fs(u_)})
-                vals = set()
-                for v in rets:
-                    if v is TOP:
-                        return None
-                    vals |= set(v)
-                return next(iter(vals)) if len(vals) == 1 else None
-
-            def guard_truth(c_, u_):
-                v = eng_.concrete(E_, c_, {dpath: u_})
-                if v is not None:
-                    return bool(v)
-                y, neg = c_.strip(), False
-                while y is not None and y.k == 'un' and y.op == '!':
-                    neg, y = not neg, y.args[0].strip()
-                if y is not None and y.k == 'call' and y.callee and len(y.args) == 1 and eng_.canon(E_, y.args[0]) == dpath:
-                    g_ = prog_.resolve(y.callee, unit_)
-                    if g_ is not None and g_.blocks and g_.unit == unit_ and len(g_.params) == 1:
-                        r_ = helper_value(g_, u_)
-                        if r_ is not None:
-                            return bool(r_) != neg
-                return None
-            allowed = set(range(-128, 128))
-            decided = False
-            for c_, t_ in fn_.guards(x) or []:
-                if t_ not in (True, False):
-                    continue
-                keep = set()
-                any_known = False
-                for u_ in allowed:
-                    gt = guard_truth(c_, u_)
-                    if gt is None:
-                        keep.add(u_)
-                    else:
-                        any_known = True
-                        if gt == t_:
-                            keep.add(u_)
-                if any_known:
-                    decided = True
-                    allowed = keep
-            if not decided:
-                allowed = None
-            nsites += 1
-            okd = allowed is not None and allowed <= set(range(48, 58)) and allowed
-            odd = sorted(allowed - set(range(48, 58)))[:6] if allowed is not None else None
-            r9.check(bool(okd), 'length-digits-only:%s:%s' % (unit_, fname_), x.where,
-                     'the length is accumulated for bytes other than digits (for example %s): "1/:" is read as the length 9, so malformed framing is accepted and acknowledged' %
-                     ([chr(b_) if 32 < b_ < 127 else b_ for b_ in (odd or [])] if odd is not None else 'any byte: no test on it precedes the sum'))
-    r9.expect_min(3)
+    r9 = rep.rule('C07.9-netstring-lengths', 'R-SIBLING', 'whole QMTP and QMQP sessions over scripted byte streams: a length field with any byte other than "0".."9" before the colon (in the message, sender, recipient-list or recipient netstring) ends the session with exit 100, nothing queued or acknowledged; addresses of 1000 bytes or more, or with a NUL, are refused and never overrun the buffer')
+    for inst_, v_ in sorted(sess.items()):
+        r9.check(v_[0], inst_, v_[1], v_[2], v_[3])
+    r9.expect_min(2)
 
     r8 = rep.rule('C07.8-queue-commit', 'R-TRANSDUCER', 'qmail-queue publishes todo/<n> only after the complete envelope F addr NUL (T addr NUL)* NUL was read (EOF, a wrong letter or an over-long address never commit), and exit 0 only through the commit')
     qs = C01.queue_sites(db, rep)
